@@ -450,6 +450,18 @@ example : resultOk? (restore (mkInputs demoCodec [demoFile (List.replicate 100 7
 example : (restore (mkInputs demoCodec [demoFile (List.replicate 99 7) []] demoBase)).1.out = .absent := by decide
 example : (restore { demoBase with decoded := some [1], fails := fun s => s == .integrity }).1
     = ⟨.absent, .absent, false, false⟩ := by decide
+/-- both ways the integrity check can fail — the PRAGMA *errors* (`fails .integrity`: "file is not a
+    database", malformed schema) and the PRAGMA *reports* problems (`integrityOk d = false`) — remove the
+    output and its sidecars (the model does not distinguish them; the code must not either) -/
+example : (restore { demoBase with decoded := some [1], integrityOk := fun _ => false }).1
+    = ⟨.absent, .absent, false, false⟩ := by decide
+theorem integrity_failure_cause_irrelevant {D : Type} (inp : Inputs D) (hp : inp.decodePanics = false)
+    (hc : inp.ctxCancelled = false) (h : (restore inp).2 = .error (.step .integrity)) :
+    (restore inp).1.out = .absent ∧ (restore inp).1.tmp ≠ .partialW ∧ (restore inp).1.wal = false
+    ∧ (restore inp).1.shm = false := by
+  obtain ⟨_, _, h3, _, _, h6⟩ := restore_output_states_partial inp hp
+  obtain ⟨a, b, c⟩ := h6 h hc
+  exact ⟨a, h3, b, c⟩
 example : (restore { demoBase with decoded := some [1], outPre := true }).1.out = .pre := by decide
 
 end C10
